@@ -286,8 +286,10 @@ func judge(p *c05.Pair, c *c05.Case, sk *c05.Skew) verdict {
 			return v
 		}
 		what = "unsafe-to-break flag not uniform within a cluster"
-	} else if csafe == 0 && safe > 0 {
-		// the reference cut nowhere: its "pass" says nothing about these cuts
+	} else if csafe == 0 && safe > 0 && !c05.Equal(cwhole, whole) {
+		// the reference cut nowhere and shapes the text differently: its "pass" says
+		// nothing about these cuts (when the whole shapings agree, the library claims a
+		// boundary safe that the reference flags, and its own cut fails: a violation)
 		v.kind, v.class = "inconclusive", clsRefNoCuts
 		return v
 	}
@@ -543,6 +545,15 @@ func Main() {
 				return
 			}
 			if fraction {
+				// lookup sweep: texts drawn from the coverage tables of the face's own lookups
+				for _, c := range c05.LookupSweep(cur, i-nRandom, pl.LookupCap) {
+					if c.Dir == hbref.DirTTB {
+						continue
+					}
+					c := c
+					w := judge(cur, &c, pl.Skew)
+					record(run, cur, &c, &w, pairs, pl.Skew)
+				}
 				// fraction chains on faces that have frac, numr and dnom
 				if !c05.HasFractions(cur.Info) {
 					return
@@ -592,7 +603,7 @@ func Main() {
 		}
 		p.Close()
 	}
-	pl := &c05.Plan{Faces: faces, Skew: sk, Batches: run.Pick(8, 60), PerTask: run.Pick(75, 75),
+	pl := &c05.Plan{Faces: faces, Skew: sk, Batches: run.Pick(8, 60), PerTask: run.Pick(75, 75), LookupCap: run.Pick(150, 1500),
 		PairItems: c05.PairSweepItems(), SweepFaces: c05.PairSweepFaces(faces)}
 	if err := c05.SavePlan(planPath, pl); err != nil {
 		fmt.Fprintln(os.Stderr, "plan:", err)
